@@ -217,8 +217,10 @@ func (c *Canary) InjectFrame(frame []byte) {
 }
 
 // DrainTx pops the frames queued in the transmit ring (what transmit() would hand to
-// sendto). It must not run concurrently with a sender.
+// sendto), under the mutex send() and transmit() use for the ring.
 func (c *Canary) DrainTx() [][]byte {
+	c.m.Lock()
+	defer c.m.Unlock()
 	var out [][]byte
 	for {
 		hdr := [2]byte{}
